@@ -310,6 +310,10 @@ func (f *Filler) Fill(v reflect.Value, depth int) {
 			ts = ts.In(time.FixedZone("X", r.Range(-12, 14)*3600+r.Intn(2)*1800))
 		case 3:
 			ts = time.Date(core.Pick(r, []int{0, 1, 9999, 10000, -1, 2000}), 1, 1, 0, 0, 0, 0, time.UTC)
+			if r.Bool() {
+				// within hours of a year boundary, in a zone where the local year is the other one
+				ts = ts.Add(time.Duration(r.Range(-16, 16)) * time.Hour).In(time.FixedZone("", r.Range(-14, 14)*3600+r.Intn(2)*1800))
+			}
 		}
 		v.Set(reflect.ValueOf(ts))
 		return
